@@ -7,7 +7,10 @@
  *   C M <hex JSON fields>                                      new modify/restore case on a fresh Host
  *   M <hex attr> <hex JSON value> | <ok> <hex JSON fields> <hex JSON original_attributes>
  *   R <hex attr>                  | <ok> <hex JSON fields> <hex JSON original_attributes>
- *   S <hex JSON spec> | <known,names|-> <hex state before> <hex state after> <hex cfg before> <hex cfg after>
+ *   S <hex JSON spec> | <known,names|-> <hex state before> <hex state after> <hex cfg before> <hex cfg after> <loaded 0|1> <num>tok,...|->
+ *        loaded: modified-attributes.conf compiled at start-up; the last field is the oracle for the config writer's number
+ *        text (C17): for every number in the modifications whose JSON token changes through ConfigWriter::EmitValue +
+ *        ConfigCompiler, `before>after` (`!` = the text does not compile)
  *        one object through DumpObjects + DumpModifiedAttributes -> fresh process -> same config ->
  *        RestoreObjects + ActivateItems(withModAttrs); state = Serialize(obj, FAState) without `version`,
  *        cfg = Serialize(obj, FAConfig) + original_attributes + version
@@ -29,6 +32,10 @@
 #include "base/array.hpp"
 #include "base/type.hpp"
 #include "config/configitem.hpp"
+#include "config/configcompiler.hpp"
+#include "config/expression.hpp"
+#include "base/configwriter.hpp"
+#include "base/scriptframe.hpp"
 #include <dlfcn.h>
 #include <fcntl.h>
 #include <signal.h>
@@ -642,6 +649,8 @@ static Dictionary::Ptr CfgOf(const Checkable::Ptr& c)
 	return d;
 }
 
+static Value GenOddNumberValue(Rng& rng);
+
 static Dictionary::Ptr GenSpec(Rng& rng, int idx)
 {
 	GenOpts cfgOpts;  /* config goes through the config loader again, not through the state file */
@@ -706,11 +715,73 @@ static Dictionary::Ptr GenSpec(Rng& rng, int idx)
 			usedKeys.insert(key);
 			if (vars->Get(key).IsObjectType<Dictionary>())
 				continue;
-			mods->Add(new Array({ "vars." + key, GenValue(rng, 2, mo) }));
+			mods->Add(new Array({ Value("vars." + key), rng.below(100) < 35 ? GenOddNumberValue(rng) : GenValue(rng, 2, mo) }));
 		}
 		spec->Set("mods", mods);
 	}
 	return spec;
+}
+
+static const double l_OddNumbers[] = { 1e-300, 1e300, 9007199254740991.0, 9007199254740992.0, 9007199254740994.0, 1e17, 1e-4, 5e-5,
+	-1e17, -5e-5, 0.1234567, 1234567.1234567, -2.5, 1e-7, 1.2345678901234568e20, 1.7976931348623157e308, 4.9e-324, 0.000001, 0.5,
+	-1234.5678912, 1e16, 99999999999999990000.0, 0.1, 1e-5, 123456.125 };
+
+static Value GenOddNumberValue(Rng& rng)
+{
+	double x = l_OddNumbers[rng.below(sizeof(l_OddNumbers) / sizeof(l_OddNumbers[0]))];
+	switch (rng.below(4)) {
+		case 0: return new Array({ Value(x), Value("s") });
+		case 1: return new Dictionary({ { "n", Value(x) } });
+		default: return x;
+	}
+}
+
+static void CollectNumbers(const Value& v, std::vector<double>& out)
+{
+	if (v.IsNumber() && !v.IsBoolean())
+		out.push_back(v);
+	else if (v.IsObjectType<Dictionary>()) {
+		Dictionary::Ptr d = v;
+		ObjectLock olock(d);
+		for (const auto& kv : d)
+			CollectNumbers(kv.second, out);
+	} else if (v.IsObjectType<Array>()) {
+		Array::Ptr a = v;
+		ObjectLock olock(a);
+		for (const Value& x : a)
+			CollectNumbers(x, out);
+	}
+}
+
+/* What the config writer + compiler make of each number in the modifications (oracle input: the text format is C17's subject). */
+static std::string NumOracle(const Array::Ptr& mods)
+{
+	std::vector<double> nums;
+	if (mods) {
+		ObjectLock olock(mods);
+		for (const Value& m : mods)
+			CollectNumbers(static_cast<Array::Ptr>(m)->Get(1), nums);
+	}
+	std::string r;
+	std::set<std::string> seen;
+	for (double x : nums) {
+		std::string before = J(x), after;
+		if (seen.count(before))
+			continue;
+		seen.insert(before);
+		try {
+			std::ostringstream os;
+			ConfigWriter::EmitValue(os, 0, x);
+			std::unique_ptr<Expression> expr = ConfigCompiler::CompileText("<oracle>", os.str());
+			ScriptFrame frame(true);
+			after = J(expr->Evaluate(frame));
+		} catch (const std::exception&) {
+			after = "!";
+		}
+		if (after != before)
+			r += (r.empty() ? "" : ",") + before + ">" + after;
+	}
+	return r.empty() ? "-" : r;
 }
 
 static std::set<std::string> l_TypeValues;
@@ -796,12 +867,14 @@ static void RunSBatch(const std::vector<Dictionary::Ptr>& specs, int batchNo)
 	int status = 0;
 	waitpid(pid, &status, 0);
 	std::ifstream af(dir + "/after.txt");
+	std::string loaded = "0";
+	af >> loaded;
 	for (size_t i = 0; i < specs.size(); i++) {
 		std::string sa = "-", ca = "-";
 		af >> sa >> ca;
 		Dictionary::Ptr stateTree = JsonDecode(sb[i]);
-		printf("S %s | %s %s %s %s %s\n", Hex(J(specs[i])).c_str(), KnownTypes(stateTree).c_str(),
-			Hex(sb[i]).c_str(), sa.c_str(), Hex(cb[i]).c_str(), ca.c_str());
+		printf("S %s | %s %s %s %s %s %s %s\n", Hex(J(specs[i])).c_str(), KnownTypes(stateTree).c_str(),
+			Hex(sb[i]).c_str(), sa.c_str(), Hex(cb[i]).c_str(), ca.c_str(), loaded.c_str(), NumOracle(specs[i]->Get("mods")).c_str());
 	}
 	for (const auto& c : objs)
 		c->Unregister();
@@ -822,8 +895,14 @@ static int RestoreMain(const std::string& dir)
 		objs.push_back(BuildConfig(spec));
 	}
 	ConfigObject::RestoreObjects(dir + "/icinga2.state");          /* daemoncommand.cpp:289 */
-	ConfigItem::ActivateItems({}, false, false, true);             /* daemoncommand.cpp:302 → configitem.cpp:648-664 */
+	int loaded = 1;
+	try {
+		ConfigItem::ActivateItems({}, false, false, true);         /* daemoncommand.cpp:302 → configitem.cpp:648-664 */
+	} catch (const std::exception&) {
+		loaded = 0;                                                /* modified-attributes.conf does not compile */
+	}
 	std::ofstream af(dir + "/after.txt");
+	af << loaded << "\n";
 	for (const auto& c : objs)
 		af << Hex(J(StateOf(c))) << " " << Hex(J(CfgOf(c))) << "\n";
 	af.close();
